@@ -151,6 +151,8 @@ def main(argv=None):
             with contextlib.redirect_stdout(buf):
                 mres = vmut.run([pid], jobs=4)
             mut = {"total": len(mres), "killed": sum(1 for x in mres if x["result"] == "killed"),
+                   "killed_by_contracts_alone": sum(1 for x in mres if x["result"] == "killed" and x.get("by") == "contracts"),
+                   "killed_only_with_driver": sum(1 for x in mres if x["result"] == "killed" and x.get("by") == "driver"),
                    "not_killed": [x for x in mres if x["result"] != "killed"]}
         except Exception as e:  # never let the self-test change the verdict
             mut = {"error": repr(e)}
